@@ -62,6 +62,13 @@ def check_case(case):
             raise Violation('raw/errflag-' + outcome, 'RawSignatureHash(ht=0x%02x, idx=%d) error indication %r but reference ok=%s' % (ht, idx, err, ok))
         if not wshape:
             r2 = libx.call('cooked', SignatureHash, csc, tx, idx, ht, allowed=(ValueError,))
+            if ht % 64 == 1 and ok:
+                # the optional amount (meaningful for witness-v0 only) does not turn the legacy digest into another one,
+                # whether or not the transaction carries witness data
+                for kw in ({'amount': 0}, {'amount': 12345}, {'amount': 2 ** 62, 'sigversion': 0}):
+                    r3 = libx.call('cooked-amount', SignatureHash, csc, tx, idx, ht, **kw)
+                    if r3[1] != want:
+                        raise Violation('cooked/amount-changes-legacy-digest', 'SignatureHash(..., %r) differs from the legacy digest' % (kw,))
             if ok:
                 if r2[0] != 'ok' or r2[1] != want:
                     raise Violation('cooked/digest', 'SignatureHash(ht=0x%02x, idx=%d) gave %r' % (ht, idx, r2[1]))
@@ -103,6 +110,16 @@ element = st.one_of(
 
 @st.composite
 def s_script(draw):
+    if draw(st.integers(0, 5)) == 0:
+        # NEAR MISSES of the witness-program shape (version opcode + one push): something behind the push, a push of 1 or 41
+        # bytes, a non-version opcode in front, PUSHDATA1 instead of a direct push - all ordinary legacy subscripts, e.g. the bare
+        # 1-of-1 multisig  OP_1 <33-byte key> OP_1 OP_CHECKMULTISIG
+        v = draw(st.sampled_from([b'\x00', b'\x51', b'\x52', b'\x60']))
+        n = draw(st.sampled_from([2, 20, 32, 33, 40]))
+        body = draw(st.binary(min_size=n, max_size=n))
+        return draw(st.sampled_from([v + bytes([n]) + body + b'\x51\xae', v + bytes([n]) + body + b'\xac', v + bytes([n]) + body + b'\x00',
+                                     v + b'\x01' + body[:1], v + b'\x29' + (body + bytes(41))[:41], b'\x61' + bytes([n]) + body,
+                                     b'\x4f' + bytes([n]) + body, v + b'\x4c' + bytes([n]) + body, v + bytes([n]) + body + v + bytes([n]) + body]))
     els = draw(st.lists(element, max_size=8))
     mode = draw(st.sampled_from(['plain', 'sep-start', 'sep-end', 'sep-both', 'plain']))
     if mode in ('sep-start', 'sep-both'):
